@@ -201,6 +201,34 @@ fn progs_for(front: &str, tier: Tier) -> Vec<(Program, Mode)> {
     add("shared-set|put|get", cfg(roomy), vec![], vec![vec![api(Op::Set(k.clone(), v(0, 0, big)))], vec![api(Op::Put(k.clone(), v(1, 0, Size::Five)))], vec![api(Op::Get(k.clone()))]], true, false, b2);
     add("touch|set|get", cfg(roomy), vec![planted(&home, Val::new(0, Size::Five), false, 1)], vec![vec![api(Op::Touch(k.clone()))], vec![api(Op::Set(k.clone(), v(1, 0, big)))], vec![api(Op::Get(k.clone()))]], false, false, b2);
     let _ = homej;
+    if front == "stack" {
+        // promotion after the judge (and, with a checker, the comparison) consumed the read-only hit: what ends up
+        // under the key in the write cache must still be the whole value
+        let ro = Val::new(21, Size::Five);
+        add(
+            "promote-judged|get",
+            cfg(roomy),
+            vec![],
+            vec![
+                vec![api(Op::Gou(k.clone(), crate::ops::Act::Promote, Pop::Value(v(0, 0, Size::Five)))), api(Op::Get(k.clone()))],
+                vec![api(Op::Get(k.clone()))],
+            ],
+            false,
+            false,
+            b2,
+        );
+        let mut checked = cfg(roomy);
+        checked.checker = crate::ops::Checker::ByteEq;
+        add(
+            "promote-checked|get",
+            checked,
+            vec![],
+            vec![vec![api(Op::Ensure(k.clone(), Pop::Value(ro))), api(Op::Get(k.clone()))], vec![api(Op::Get(k.clone()))]],
+            false,
+            false,
+            b2,
+        );
+    }
     if tier == Tier::Thorough {
         add("set-set|get-get-big", cfg(roomy), vec![], vec![vec![api(Op::Set(k.clone(), v(0, 0, big))), api(Op::Set(k.clone(), v(0, 1, big)))], vec![api(Op::Get(k.clone())), api(Op::Get(k.clone()))]], false, false, b2);
         add("ensure|set|get-big", cfg(roomy), vec![], vec![vec![api(Op::Ensure(k.clone(), Pop::Value(v(0, 0, big))))], vec![api(Op::Set(k.clone(), v(1, 0, big)))], vec![api(Op::Get(k.clone()))]], false, false, b2);
